@@ -138,7 +138,10 @@ type rig struct {
 	handed  []*entry
 }
 
-func newRig(cfg qcfg) (*rig, error) {
+func newRig(cfg qcfg) (*rig, error) { return newRigOn(cfg, nil) }
+
+// newRigOn builds the rig on an existing durable store (a later incarnation of a persistent queue).
+func newRigOn(cfg qcfg, st *qstore.Store) (*rig, error) {
 	r := &rig{cfg: cfg, entered: make(chan *entry, 4096)}
 	r.tel = componenttest.NewTelemetry()
 	set := exportertest.NewNopSettings(component.MustNewType("verif"))
@@ -162,7 +165,10 @@ func newRig(cfg qcfg) (*rig, error) {
 	if cfg.Persistent {
 		id := qstore.ID
 		qc.StorageID = &id
-		r.store = qstore.New(nil, -1)
+		r.store = st
+		if r.store == nil {
+			r.store = qstore.New(nil, -1)
+		}
 		host = qstore.NewHost(r.store)
 	}
 	if err := qc.Validate(); err != nil {
